@@ -1152,6 +1152,41 @@ def main():
                 run.count('large-records:%s:%s' % (mode, how))
                 run.seen(('large', mode, how), nontrivial=True)
             wlog.close()
+            # the same records written with flush=False: whatever part of the file has reached the disk ends on a record
+            # boundary, so a read-only object reading after every write returns whole records only (a prefix of what was written)
+            if mode != 'bin':
+                root2 = tempfile.mkdtemp(prefix='verif_c13_big2_')
+                try:
+                    CLOCK.us = 10 ** 12
+                    wlog = RollLog(root2, mode, file_size=10 ** 7, total_size=10 ** 9, utc=True)
+                    rlog = RollLog(root2, mode, rdonly=True, utc=True)
+                    got = []
+                    for n, r in enumerate(recs):
+                        CLOCK.us += 1000
+                        wlog.write(r, CLOCK.us / 1_000_000, flush=False)
+                        try:
+                            if n == 0:
+                                rlog.seek(('start', 0))
+                            for _ in range(4):
+                                x = rlog.read() if n % 2 else rlog.read_block()
+                                if x is None or x == []:
+                                    break
+                                got += x if isinstance(x, list) else [x]
+                        except Exception as e:      # noqa
+                            got.append('raised %r' % (e,))
+                        if got != recs[:len(got)]:
+                            j = next(i for i in range(len(got)) if got[i] != recs[i])
+                            run.violation('reader:torn:unflushed-record mode=%s' % mode,
+                                          'records written with flush=False, a read-only object reads after every write: record %d (%s bytes written) '
+                                          'returned as %r... (%s bytes)' % (j, sizes[j], str(got[j])[:40], len(got[j]) if hasattr(got[j], '__len__') else '-'),
+                                          dict(case=dict(mode=mode, sizes=sizes, flush=False, after_write=n)))
+                            break
+                    run.count('large-records:%s:unflushed' % mode)
+                    run.seen(('large-unflushed', mode), nontrivial=bool(got))
+                    rlog.close()
+                    wlog.close()
+                finally:
+                    shutil.rmtree(root2, ignore_errors=True)
         finally:
             shutil.rmtree(root, ignore_errors=True)
     for k, n in seen_keys.items():
